@@ -87,7 +87,7 @@ func Run(prop string) func(c *hl.Ctx) error {
 		nh := c.Pick(220, 6000)
 		for h := 0; h < nh; h++ {
 			gen := &Gen{R: r, MaxTop: 4, MaxDepth: 2, Boards: prop == "C41" || h%3 == 0, ForceBoard: prop == "C41",
-				Tricky: h%4 == 3, MultiRef: h%2 == 1, Count: c.Count}
+				Tricky: h%4 == 3, MultiRef: h%2 == 1 && os.Getenv("D2V_EDIT_NESTED") == "", Count: c.Count, Nested: os.Getenv("D2V_EDIT_NESTED") != ""}
 			og := &OpGen{R: r, W: weights[prop], Tricky: h%4 == 3, Count: c.Count}
 			text := gen.Diagram()
 			g, err := Compile(text)
